@@ -242,6 +242,21 @@ pub fn run(cfg: &Cfg) {
         one(&mut out, &["yenc", &hx(&any)]);
         one(&mut out, &["ydec", &hx(&any)]);
     }
+    // code points with a special role somewhere (byte order mark, separators, controls, non-characters, plane
+    // boundaries) and random ones from the whole range, alone and as first / middle / last character: a codec may
+    // not treat any of them specially
+    let mut cps: Vec<u32> = vec![0x0, 0x1, 0x8, 0x9, 0xa, 0xd, 0x1b, 0x20, 0x22, 0x27, 0x5c, 0x7f, 0x80, 0x85, 0xa0, 0xad, 0x300, 0x34f, 0x61c, 0x180e,
+        0x2000, 0x200b, 0x200c, 0x200d, 0x200e, 0x200f, 0x2028, 0x2029, 0x202a, 0x202e, 0x2060, 0x2066, 0x3000, 0xd7ff, 0xe000, 0xf8ff, 0xfdd0, 0xfdef,
+        0xfe00, 0xfe0f, 0xfeff, 0xfff0, 0xfff9, 0xfffc, 0xfffd, 0xfffe, 0xffff, 0x10000, 0x1f600, 0x1fffe, 0x1ffff, 0xe0001, 0xe0020, 0xe007f, 0xe0100,
+        0xf0000, 0xffffd, 0x100000, 0x10fffd, 0x10fffe, 0x10ffff];
+    for _ in 0..cfg.n(300, 20_000) { cps.push(r.below(0x110000) as u32); }
+    for cp in cps {
+        let Some(c) = char::from_u32(cp) else { continue };
+        for text in [format!("{c}"), format!("{c}hello"), format!("he{c}llo"), format!("hello{c}"), format!("{c}{c}")] {
+            one(&mut out, &["senc", &hx(text.as_bytes())]);
+            one(&mut out, &["sdec", &hx(text.as_bytes())]);
+        }
+    }
     // every 1- and 2-byte string whose first byte is >= 0x80 region boundaries
     for a in [0x00u8, 0x7f, 0x80, 0xbf, 0xc0, 0xc1, 0xc2, 0xdf, 0xe0, 0xec, 0xed, 0xee, 0xef, 0xf0, 0xf1, 0xf3, 0xf4, 0xf5, 0xff] {
         one(&mut out, &["sdec", &hx(&[a])]);
